@@ -97,8 +97,7 @@ def _route(app, host, uri, xreal):
         return Tag("NotFound")
     if cls is _classes.get("d"):
         return Tag("Default")
-    assert d.path_kwargs == {}
-    return [Tag("Handler"), cls.c31_id, [bytes(a) for a in d.path_args]]
+    return [Tag("Handler"), cls.c31_id, [bytes(a) for a in d.path_args], [[k, bytes(v)] for k, v in d.path_kwargs.items()]]
 
 
 def _pyarg(i, b):
@@ -119,7 +118,10 @@ def run_impl(case):
     logging.getLogger("tornado.application").setLevel(logging.CRITICAL)
     with warnings.catch_warnings():
         warnings.simplefilter("ignore")
-        app = _mk_app(case)
+        try:
+            app = _mk_app(case)
+        except (AssertionError, re.error):
+            return Tag("ConstructionFailed")     # mixed named / unnamed groups, repeated group name
         op = case["op"]
         if op["k"] == "route":
             return _route(app, op["host"], op["uri"], op.get("xreal", False))
@@ -214,11 +216,14 @@ def _oracle_route(case, host, uri, xreal):
     path = uri.partition("?")[0]
     for anc, leaf in _leaves(_app_tree(case), []):
         if all(_strict(r, case, host_name, path, xreal) for r in anc + [leaf]):
-            args = []
+            args, kw = [], []
             if leaf["k"] in ("path", "pathre"):
                 m = re.fullmatch(leaf["pat"], path) if leaf["k"] == "path" else re.match(leaf["pat"], path)
-                args = [urllib.parse.unquote_to_bytes(g) for g in m.groups()]
-            return [Tag("Handler"), leaf["h"], args]
+                if m.re.groupindex:
+                    kw = [[k, urllib.parse.unquote_to_bytes(v)] for k, v in m.groupdict().items()]
+                else:
+                    args = [urllib.parse.unquote_to_bytes(g) for g in m.groups()]
+            return [Tag("Handler"), leaf["h"], args, kw]
     return Tag("Default") if case.get("dflt") else Tag("NotFound")
 
 
@@ -271,8 +276,32 @@ def _valid(s):
     return not any(0xD800 <= ord(c) <= 0xDFFF for c in s)
 
 
+def _constructible(case):
+    pats = [(r["k"], r["pat"]) for r in _all_rules(case["handlers"])] + [(r["k"], r["pat"]) for _, rs in case["hosts"] for r in _all_rules(rs)]
+    for k, p in pats:
+        if k in ("path", "pathre"):
+            try:
+                c = re.compile(p)
+            except re.error:
+                return False
+            if len(c.groupindex) not in (0, c.groups):
+                return False
+    return True
+
+
+def _all_rules(rules):
+    for r in rules:
+        yield r
+        if "sub" in r:
+            yield from _all_rules(r["sub"])
+
+
 def py_check(case, o):
     op = case["op"]
+    if not _constructible(case):
+        return o == "ConstructionFailed"
+    if o == "ConstructionFailed":
+        return False
     if o == ["HarnessException"] or (isinstance(o, list) and o and o[0] == "HarnessException"):
         return False
     with warnings.catch_warnings():
@@ -376,7 +405,7 @@ def gen_pattern(rng):
             segs.append(("lit", _unescape_lit(l)))
         elif r < 0.93:
             b, kind = rng.choice(BODIES[:8] if rng.random() < 0.6 else BODIES)
-            parts.append("(" + b + ")")
+            parts.append(("(", b, ")"))
             segs.append(("grp", kind))
         else:   # a quantified top-level item
             t, kind = rng.choice([("[0-9]", "dig"), (".", "dot"), ("a*", "as"), ("[a-z]{2}", "two_l"), ("b+?", "bs"), ("a{1}", "one_a")])
@@ -389,7 +418,19 @@ def gen_pattern(rng):
     elif r < 0.25:
         parts.append("/")
         segs.append(("lit", "/"))
-    pat = "".join(parts)
+    # groups: all positional (mostly), all named, or (rarely) mixed -> AssertionError at construction
+    mode = rng.random()
+    gi = 0
+    flat = []
+    for part in parts:
+        if isinstance(part, tuple):
+            gi += 1
+            named = mode < 0.22 or (mode > 0.97 and gi % 2 == 1)
+            nm = rng.choice(["id", "tag", "x1", "_k", "Name"]) + (str(gi) if rng.random() < 0.9 else "")
+            flat.append("(" + ("?P<%s>" % nm if named else "") + part[1] + ")")
+        else:
+            flat.append(part)
+    pat = "".join(flat)
     r = rng.random()
     if r < 0.06:
         pat = "^" + pat
@@ -641,6 +682,17 @@ def corpus_cases():
     for host, uri in [("www.example.com", "/a"), ("www.example.com", "/b"), ("www.example.com:8080", "/b"), ("www.example.com", "/c/x%20y"),
                       ("www.example.com", "/d"), ("www.other.org", "/b"), ("example.com", "/b")]:
         out.append(_case(c8, {"k": "route", "host": host, "uri": uri, "xreal": False}))
+    # named groups -> path_kwargs (incl. the empty capture of seeded change C31_2); mixed groups are refused
+    c9 = dict(base, handlers=[_leaf("/u/(?P<id>[0-9]+)/(?P<tag>[a-z]*)", 1, "u"), _leaf("/n/(?P<tag>.*)", 2, "n"), _leaf("/p/([a-z]*)/(.*)", 3, "p"),
+                              {"k": "pathre", "pat": "/q/(?P<q>[^/]*)", "name": "q", "h": 4}])
+    for uri in ["/u/7/ab", "/u/7/", "/n/", "/n/a%20b", "/p//", "/p/a/b", "/q/", "/q/x/rest", "/u/x/"]:
+        out.append(_case(c9, {"k": "route", "host": "x", "uri": uri, "xreal": False}))
+    for nm, a in [("u", ["7", ""]), ("u", ["7", "ab"]), ("n", [""]), ("n", ["a b"]), ("p", ["", ""]), ("q", [""]), ("u", ["7"])]:
+        out.append(_case(c9, {"k": "reverse", "name": nm, "args": a, "host": "x"}))
+    c10 = dict(base, handlers=[_leaf("/m/(?P<a>x)/(y)", 1), _leaf("/ok", 2)])
+    out.append(_case(c10, {"k": "route", "host": "x", "uri": "/ok", "xreal": False}))
+    c11 = dict(base, handlers=[_leaf("/m/(?P<a>x)/(?P<a>y)", 1)])
+    out.append(_case(c11, {"k": "route", "host": "x", "uri": "/m/x/y", "xreal": False}))
     c6 = {"handlers": [_leaf("/h", 1)], "hosts": [["ex\\$", [_leaf("/h", 2)]], ["example\\.com", [_leaf("/h", 3)]]], "default_host": None, "dflt": False}
     for host in ["ex$", "ex$tra", "example.com", "example.com.evil", "example.com:8080", "EXAMPLE.com:1", "example.com:", "ex$:5"]:
         out.append(_case(c6, {"k": "route", "host": host, "uri": "/h", "xreal": False}))
